@@ -14,7 +14,7 @@ func init() { props["C04"] = muxProp{4, genC04, oracleC04} }
 func genC04(r *Rng, tier string, emit func(string, Tok)) {
 	muxGenAll(r, tier, muxMix{
 		random: scale(tier, 150, 600), maxLen: scale(tier, 60, 400),
-		wrap: scale(tier, 4, 40), bigPMT: scale(tier, 15, 150), many: scale(tier, 30, 400), ood: scale(tier, 40, 400),
+		wrap: scale(tier, 4, 40), bigPMT: scale(tier, 15, 150), many: scale(tier, 30, 400), readd: scale(tier, 15, 150), ood: scale(tier, 40, 400),
 		exhaustive: scale(tier, 3, 4),
 	}, emit)
 }
